@@ -522,6 +522,7 @@ class Env:
         self.heads = {}
         self.tail_events = []     # (site, head record or None, tail record)
         self.vocab = ()
+        self.mix_seen = {}        # in-block name -> element codes its body was rendered for
 
     def label(self, obj, label):
         self.reg[id(obj)] = label
@@ -583,6 +584,100 @@ class TailProbe:
         return ''
 
 
+class MixRecorder:
+    """Body probe of a mixed-element dtml-in: records, from the harness side, which element the
+    body is being rendered for (the value bound to sequence-item).  Not a fault point."""
+
+    def __init__(self, env, name, elems):
+        self.env = env
+        self.name = name
+        self.elems = elems       # [(code, value bound to sequence-item for that element)]
+
+    def __call__(self, md):
+        env = self.env
+        plan, env.ctl.plan = env.ctl.plan, {}
+        n, log = env.ctl.n, len(env.ctl.log)
+        try:
+            try:
+                v = md.getitem('sequence-item', 0)
+            except BaseException as e:
+                env.mix_seen.setdefault(self.name, []).append('?' + type(e).__name__)
+                return ''
+        finally:
+            env.ctl.plan = plan
+            env.ctl.n = n
+            del env.ctl.log[log:]
+        code = '?'
+        for c, ev in self.elems:
+            if ev is v or (type(ev) in (str, bytes, int, float) and type(ev) is type(v) and ev == v):
+                code = c
+                break
+        env.mix_seen.setdefault(self.name, []).append(code)
+        return ''
+
+
+class MapObj:
+    """Mapping that is not a dict (for `mapping` loops / `with mapping`): item access is a fault
+    point."""
+
+    def __init__(self, env, where, label, data):
+        self.env = env
+        self.where = where
+        self.vlabel = label
+        self.data = data
+
+    def __getitem__(self, key):
+        self.env.ctl.hit('map-getitem@' + self.where, key)
+        return self.data[key]
+
+
+# element kinds of a mixed sequence: code -> coarse class used in the coverage tables
+MIX_CLASS = {'o': 'obj', 'm': 'map', 'M': 'map', 't': 'pair', 'u': 'pair', 'v': 'pair', 's': 'str',
+             'b': 'str', 'i': 'num', 'f': 'num', 'n': 'other', 'l': 'other'}
+MIX_PLAIN = ('o', 'm', 't', 'u', 's', 'b', 'i', 'f', 'n', 'l')
+MIX_MAPPING = ('m', 'v', 'M', 's', 'i', 'o')
+
+
+def mixed_element(env, code, where, label, attrs, i=0):
+    """(element as it sits in the sequence, value the engine binds to sequence-item)."""
+    if code == 'o':
+        v = env.label(Obj(env, where, label, **attrs), label)
+        return v, v
+    if code == 'm':
+        v = env.label(dict(attrs), label)
+        return v, v
+    if code == 'M':
+        v = env.label(MapObj(env, where, label, dict(attrs)), label)
+        return v, v
+    if code == 't':
+        v = env.label(Obj(env, where, label, **attrs), label)
+        return ('k@' + label, v), v
+    if code == 'u':
+        v = 'pv@' + label
+        return ('k@' + label, v), v
+    if code == 'v':
+        v = env.label(dict(attrs), label)
+        return ('k@' + label, v), v
+    if code == 's':
+        v = 'e@' + label
+        return v, v
+    if code == 'b':
+        v = ('e@' + label).encode()
+        return v, v
+    if code == 'i':
+        v = 1000 + i
+        return v, v
+    if code == 'f':
+        v = 0.25 + i
+        return v, v
+    if code == 'n':
+        return None, None
+    if code == 'l':
+        v = env.label([label, 1, 2], label)
+        return v, v
+    raise ValueError(code)
+
+
 # ====================================================================== builder
 BLOCK_KINDS = ('top', 'if', 'elif', 'else', 'unless', 'in', 'in-batch', 'in-else', 'with',
                'with-only', 'with-mapping', 'let', 'try-body', 'except', 'try-else',
@@ -622,6 +717,7 @@ class Builder:
         self.features = set()
         self.cls = make_guarded_class(HTML) if guarded else HTML
         self.subs = {}
+        self.mixed_info = {}    # in-block name -> {'batched': bool, 'flags': str} of mixed loops
         self.src = self.body(tree, ['top'])
         self.full = ('<dtml-var "th0(_)"><dtml-try>' + self.src +
                      '<dtml-except>[caught <dtml-var error_type>]</dtml-try><dtml-var "tt0(_)">')
@@ -675,6 +771,8 @@ class Builder:
             return '<dtml-var meth>'
         if form == 'x':
             return '<dtml-var x>'
+        if form == 'item':       # str() of the current element (Obj.__str__ is a fault point)
+            return '<dtml-var sequence-item>'
         if form == 'objmeth':
             n = self.nid()
             name = 'o%d' % n
@@ -740,6 +838,13 @@ class Builder:
         name = 's%d' % n
         kind = opts.get('kind', 'objs')
         count = opts.get('n', 2)
+        mix = list(opts.get('mix') or ())
+        cont = opts.get('cont', 'list')
+        if kind == 'mixed':
+            count = len(mix)
+            self.features.add('in:mixed:' + cont)
+            if opts.get('mapping'):
+                self.features.add('in:mixed:mapping')
         batch = bool(opts.get('batch'))
         bk = 'in-batch' if batch else 'in'
         where = bk
@@ -749,8 +854,24 @@ class Builder:
         self.features.add('in:' + kind)
 
         def mk(env, name=name, kind=kind, count=count, where=where, site=site, attrs=attrs,
-               deny=deny):
-            if kind == 'ints':
+               deny=deny, mix=mix, cont=cont, n=n):
+            if kind == 'mixed':
+                elems = []
+                seq = []
+                for i, code in enumerate(mix):
+                    el, val = mixed_element(env, code, where, '%s_%d' % (name, i), attrs[i], i)
+                    if deny is not None and i == deny % len(mix) and isinstance(el, Obj):
+                        el.__dict__['deny_item'] = True
+                    seq.append(el)
+                    elems.append((code, val))
+                if cont == 'tuple':
+                    seq = tuple(seq)
+                elif cont == 'lazy':
+                    seq = LazySeq(env, where, seq)
+                elif cont == 'iter':
+                    seq = IterSeq(env, where, seq)
+                env.ns['mx%d' % n] = MixRecorder(env, name, elems)
+            elif kind == 'ints':
                 seq = list(range(1, count + 1))
             elif kind == 'strs':
                 seq = ['i%d' % i for i in range(count)]
@@ -776,19 +897,31 @@ class Builder:
             env.ns[name] = Probe(env, site, name, seq)
         self.makers.append(mk)
         a = [name if not opts.get('expr') else '"%s()"' % name]
-        if kind == 'maps':
+        if kind == 'maps' or (kind == 'mixed' and opts.get('mapping')):
             a.append('mapping')
         if batch:
-            a.append('size=%d' % opts.get('size', 2))
+            if not opts.get('nosize') or not (opts.get('start') or opts.get('end')):
+                # any one of size / start / end makes the tag a batched one
+                a.append('size=%d' % opts.get('size', 2))
             if opts.get('start'):
                 a.append('start=%d' % opts['start'])
+            if opts.get('end'):
+                a.append('end=%d' % opts['end'])
             if opts.get('orphan') is not None:
                 a.append('orphan=%d' % opts['orphan'])
+            if opts.get('overlap') is not None:
+                a.append('overlap=%d' % opts['overlap'])
             if opts.get('prevnext'):
                 a.append(opts['prevnext'])
-        if opts.get('sort') and kind in ('objs', 'maps', 'tuples', 'lazy'):
+            self.features.add('in:batch:' + '+'.join(k for k in ('size', 'start', 'end')
+                                                     if ('%s=' % k) in ' '.join(a)))
+        if opts.get('sortx'):               # sort key computed at render time (a fault point)
+            a.append('sort_expr="%s()"' % self.probe('in-sort-expr', path, result='x'))
+        elif opts.get('sort') and kind in ('objs', 'maps', 'tuples', 'lazy', 'mixed'):
             a.append('sort=x')
-        if opts.get('reverse'):
+        if opts.get('revx'):
+            a.append('reverse_expr="%s()"' % self.probe('in-reverse-expr', path, result=1))
+        elif opts.get('reverse'):
             a.append('reverse')
         if opts.get('prefix'):
             a.append('prefix=pf%d' % n)
@@ -798,7 +931,14 @@ class Builder:
             a.append('no_push_item')
         if opts.get('skip'):
             a.append('skip_unauthorized')
-        out = '<dtml-in %s>%s' % (' '.join(a), self.body(body, path + [bk]))
+        rec = ''
+        if kind == 'mixed':
+            rec = '<dtml-var "mx%d(_)">' % n
+            self.mixed_info[name] = {
+                'batched': batch,
+                'flags': '+'.join(x.split('=')[0] for x in a[1:]
+                                  if not x.startswith(('size', 'start', 'end', 'orphan', 'overlap')))}
+        out = '<dtml-in %s>%s%s' % (' '.join(a), rec, self.body(body, path + [bk]))
         if els is not None:
             out += '<dtml-else>' + self.body(els, path + ['in-else'])
         return out + '</dtml-in>'
@@ -806,7 +946,8 @@ class Builder:
     def n_with(self, nd, path):
         kind, body = nd[1], nd[2]
         n = self.nid()
-        bk = {'only': 'with-only', 'map': 'with-mapping'}.get(kind, 'with')
+        bk = {'only': 'with-only', 'map': 'with-mapping', 'mapobj': 'with-mapping',
+              'onlymap': 'with-only'}.get(kind, 'with')
         self.features.add('with:' + kind)
         label = 'w%d' % n
         attrs = self.obj_attrs(label, n)
@@ -834,10 +975,26 @@ class Builder:
                 env.onlys = getattr(env, 'onlys', []) + [o]
             elif kind == 'tuple':
                 env.ns[name] = (env.label(Obj(env, bk, name, **attrs), name),)
+            elif kind == 'tuple2':      # only 1-tuples are unwrapped
+                env.ns[name] = (env.label(Obj(env, bk, name, **attrs), name),
+                                env.label(Obj(env, bk, name + 'b', **attrs), name + 'b'))
+            elif kind == 'str':
+                env.ns[name] = 'plain@' + name
+            elif kind == 'num':
+                env.ns[name] = 7
+            elif kind == 'none':
+                env.ns[name] = None
+            elif kind == 'mapobj':
+                env.ns[name] = env.label(MapObj(env, bk, name, dict(attrs)), name)
+            elif kind == 'onlymap':
+                o = env.label(dict(attrs), name)
+                env.ns[name] = o
+                env.onlys = getattr(env, 'onlys', []) + [o]
             else:
                 env.ns[name] = env.label(Obj(env, bk, name, **attrs), name)
         self.makers.append(mk)
-        extra = {'map': ' mapping', 'only': ' only'}.get(kind, '')
+        extra = {'map': ' mapping', 'only': ' only', 'mapobj': ' mapping',
+                 'onlymap': ' only mapping'}.get(kind, '')
         return '<dtml-with %s%s>%s</dtml-with>' % (name, extra, self.body(body, path + [bk]))
 
     def n_let(self, nd, path):
@@ -918,6 +1075,19 @@ class Builder:
                 env.ns[on] = env.label(Obj(env, 'sub', on, **attrs), on)
             self.makers.append(mk)
             return '<dtml-var "%s(%s, _)">' % (name, on)
+        if how in ('clientkw', 'tuple', 'tuplekw'):
+            # a single client plus keywords / a "path" of 0..3 clients (with or without keywords)
+            nc = 1 if how == 'clientkw' else opts.get('nclients', 2)
+            ons = ['o%d%s' % (n, 'abc'[i]) for i in range(nc)]
+            cattrs = [self.obj_attrs(on, n) for on in ons]
+
+            def mk(env, ons=ons, cattrs=cattrs):
+                for on, at in zip(ons, cattrs):
+                    env.ns[on] = env.label(Obj(env, 'sub', on, **at), on)
+            self.makers.append(mk)
+            self.features.add('sub:clients=%d' % nc)
+            carg = ons[0] if how == 'clientkw' else '(%s)' % ''.join(on + ', ' for on in ons)
+            return '<dtml-var "%s(%s, _%s)">' % (name, carg, '' if how == 'tuple' else ', kx=1')
         raise ValueError(how)
 
     def n_rec(self, nd, path):
@@ -1004,6 +1174,10 @@ class Builder:
         for mk in self.makers:
             mk(env)
         for o in getattr(env, 'onlys', ()):
+            if isinstance(o, dict):
+                for k, v in ns.items():
+                    o.setdefault(k, v)
+                continue
             for k, v in ns.items():
                 if k not in o.__dict__ and not hasattr(type(o), k):
                     o.__dict__[k] = v
